@@ -31,6 +31,8 @@ def precond(model, op):
         if not (op["space"] and S(op["space"])):
             return False
         s = sp(model, op["space"])
+        if op.get("force"):
+            return True
         try:
             return op["name"] in rm.derived_cells(s)
         except rm.NoMRO:
